@@ -7,7 +7,7 @@ from concurrent.futures import ProcessPoolExecutor
 from lib import common, play, stories
 
 LEVEL = "proof"
-THEOREM_MODULES = ["Proofs.C09"]
+THEOREM_MODULES = ["Proofs.C09", "Proofs.C09Load"]
 REQUIRED_THEOREMS = [
     "Ink.C09.continueInternal_rejected", "Ink.C09.continueAsync_rejected", "Ink.C09.cont_rejected",
     "Ink.C09.continueAsync_rejected_state", "Ink.C09.validate_cases", "Ink.C09.currentChoices_state",
@@ -16,7 +16,8 @@ REQUIRED_THEOREMS = [
     "Ink.C09.evaluateFunction_bad_argument", "Ink.C09.choosePathString_unknown_path",
     "Ink.C09.choosePathString_bad_argument", "Ink.C09.removeFlow_default", "Ink.C09.bindExternal_twice",
     "Ink.C09.unbindExternal_missing", "Ink.C09.async_refuses",
-]
+    # witness of the known finding C09-partial-load (negation, concrete) and its early-field counterpart
+    "Ink.C09.loadState_rejected_not_atomic", "Ink.C09.loadState_rejected_early_keeps_flow"]
 RULE = ("a case = one story x one valid host history (random walk with saves, observers, flows) x invalid calls of "
         "every kind injected at random positions; non-trivial when at least one injected call lands at a choice "
         "point or mid-story (not only at the end); distinct by hash of the injected script")
@@ -46,6 +47,11 @@ INVALID = [
     ["tagsat_guarded"],   # placeholder removed below
 ]
 INVALID = [x for x in INVALID if x[0] != "tagsat_guarded"]
+# load_state of a save with one damaged field: refused; a field the loader reads FIRST (flows) vs LAST (turnIdx);
+# (a damaged inkSaveVersion is not refused at all: only a too-old NUMBER is)
+LOADBAD_LATE = ["loadbad", "c09start", "turnIdx"]
+LOADBAD = [["loadbad", "c09start", "flows"],
+           ["loadtext", "{\"inkSaveVersion\": 3}"], ["loadtext", "not json"]]
 
 
 def one_case(job):
@@ -62,9 +68,19 @@ def one_case(job):
     invalid = list(INVALID)
     # a second, rejected bind of a function the story really calls (other handler, other safety flag)
     invalid += [["bind", e["name"], "intruder", False, {"i": 99}] for e in exts] * 3
+    # the late-field variant (known finding C09-partial-load) gets histories of its own, so that whatever else is
+    # injected is never blamed for, or hidden by, what a partial load did
+    partial_load_case = wseed % 5 == 0
+    invalid = [LOADBAD_LATE] if partial_load_case else invalid + LOADBAD
     g = story["meta"].get("globals") or []
     if g:
         setup.append(["observe", g[0], "o1"])
+    # every other history is played inside a named flow (a fresh flow starts at the top of the story): refused or
+    # empty flow operations (removing a flow that is not there, removing the default flow) must leave it current
+    if wseed % 2 == 1:
+        setup.append(["switch", "c09side"])
+    # a save of the start, for rejected loads of a damaged copy of it (see LOADBAD)
+    setup.append(["save", "c09start"])
     end = play.walk(sess, rng, story["path"], seed=5, max_turns=6, setup=setup,
                     per_line=[save_probe], per_turn=[save_probe])
     sess.close()
@@ -86,7 +102,8 @@ def one_case(job):
     for pos in sorted(rng.sample(positions, k), reverse=True):
         bad = rng.choice(invalid)
         # `cont` is an invalid call exactly where the story cannot continue
-        if pos > 0 and base_ops[pos - 1] == ["can"] and base_res[pos - 1].get("v") is False and rng.random() < 0.5:
+        if (not partial_load_case and pos > 0 and base_ops[pos - 1] == ["can"] and base_res[pos - 1].get("v") is False
+                and rng.random() < 0.5):
             bad = ["cont"]
         ops2.insert(pos, bad)
         marks.insert(pos, True)
@@ -126,7 +143,8 @@ def one_case(job):
                                        "diverges_at_valid_op": base_ops[i], "without": cx, "with": cy,
                                        "last_injected": culprit,
                                        "why": "a rejected call changed later behaviour"},
-                                      {"kind": "lockstep", "op": (culprit or ["?"])[0]}))
+                                      {"kind": "lockstep", "op": (culprit or ["?"])[0],
+                                       "field": (culprit[2] if culprit and culprit[0] == "loadbad" else "")}))
             break
     res["sample"] = {"story": os.path.basename(story["path"]), "injected": injected[:3], "ops": len(ops2)}
     return res
